@@ -135,6 +135,7 @@ class _CacheBase(Contract):
         st = it.st
         self.build(it)
         self.havoc_to_inv(it)
+        self.mark = attr_write_mark(it)
         self.p0 = dict_parts(it, self.cached)
         self.g0 = dict(st.ghost)
         self.args = sym_tuple(it, "args")
@@ -360,6 +361,8 @@ class _CacheBase(Contract):
     def on_return(self, it, ret):
         st = it.st
         g = st.ghost
+        if hasattr(self, "mark"):
+            wrapper_frame(it, self.obj, self.mark)
         if self.is_async:
             st.check("C13-P2:returns-the-outcome-of-the-shared-invocation",
                      z3.And(fstate(it, self.awaited) == F_RESULT, ret == fval(it, self.awaited)))
